@@ -1,6 +1,8 @@
 package props
 
 import (
+	"github.com/willabides/rjson"
+
 	"encoding/json"
 	"fmt"
 	"os"
@@ -24,6 +26,16 @@ func ReplayFile(path string) int {
 		fmt.Println("replay:", err)
 		return 2
 	}
+	if rp.Engine == "crash" {
+		pan := crashSweep(rp.InputB64)
+		fmt.Printf("replay %s (library panic) input=%s\n  now: %s\n", rp.Property, rp.InputQ, pan)
+		if pan != "" {
+			fmt.Printf("VIOLATION property=%s replay=%s\n", rp.Property, path)
+			return 1
+		}
+		fmt.Println("replay: no entry point panics on this input with fresh buffers on the current tree (the recorded stack names the call)")
+		return 0
+	}
 	f := Replayers[rp.Property+"/"+rp.Engine]
 	if f == nil {
 		f = Replayers[rp.Property]
@@ -40,4 +52,39 @@ func ReplayFile(path string) int {
 	}
 	fmt.Println("replay: does not violate on the current tree")
 	return 0
+}
+
+// crashSweep runs the entry points on w with fresh buffers and returns the first panic ("" if none).
+func crashSweep(w []byte) string {
+	declA := rjson.ArrayValueHandlerFunc(func([]byte) (int, error) { return 0, nil })
+	declO := rjson.ObjectValueHandlerFunc(func(_, _ []byte) (int, error) { return 0, nil })
+	calls := map[string]func(){
+		"Valid":                           func() { rjson.Valid(w, nil) },
+		"SkipValue":                       func() { rjson.SkipValue(w, nil) },
+		"SkipValueFast":                   func() { rjson.SkipValueFast(w, nil) },
+		"HandleArrayValues":               func() { rjson.HandleArrayValues(w, declA, nil) },
+		"HandleObjectValues":              func() { rjson.HandleObjectValues(w, declO, nil) },
+		"HandleArrayValues(ValueReader)":  func() { rjson.HandleArrayValues(w, &rjson.ValueReader{}, nil) },
+		"HandleObjectValues(ValueReader)": func() { rjson.HandleObjectValues(w, &rjson.ValueReader{}, nil) },
+		"ReadValue":                       func() { rjson.ReadValue(w) },
+		"ReadArray":                       func() { rjson.ReadArray(w) },
+		"ReadObject":                      func() { rjson.ReadObject(w) },
+		"ReadString":                      func() { rjson.ReadString(w, nil) },
+		"ReadStringBytes":                 func() { rjson.ReadStringBytes(w, nil) },
+		"ReadFloat64":                     func() { rjson.ReadFloat64(w) },
+		"ReadInt64":                       func() { rjson.ReadInt64(w) },
+		"ReadUint64":                      func() { rjson.ReadUint64(w) },
+		"NextToken":                       func() { rjson.NextToken(w) },
+	}
+	var names []string
+	for n := range calls {
+		names = append(names, n)
+	}
+	sortStrings(names)
+	for _, n := range names {
+		if pan := guard(calls[n]); pan != "" {
+			return n + ": panic: " + pan
+		}
+	}
+	return ""
 }
